@@ -15,6 +15,14 @@
 (*   brk[k]   "nl": a line break precedes its opening parenthesis          *)
 (*   span[k]  "two": a line break separates its colon from its body        *)
 (*   sig[k]   its parameter list                                           *)
+(*   wr[k]    "no", or the parameter list of a module-level function W:    *)
+(*            the expression is  functools.wraps(W)(lambda ...: ...)  (the *)
+(*            one-line decorator idiom), so the object carries W's name,   *)
+(*            doc and __wrapped__ = W.  That changes what introspection    *)
+(*            following __wrapped__ REPORTS about the object (Shown), not  *)
+(*            the code it runs: the lambda expression that created it and  *)
+(*            the object's own parameters (Own) are what they were, and so *)
+(*            is the expected result below.                                *)
 (* The body constant of lambda k is 100+k, so the recovered expression     *)
 (* tells which lambda was found.                                           *)
 (*                                                                         *)
@@ -33,11 +41,15 @@ EXTENDS Naturals, Sequences, FiniteSets, TLC, Json
 CONSTANTS MaxL,      \* max number of lambdas
           Sigs,      \* parameter lists for configurations of up to 2 lambdas
           Sigs3,     \* parameter lists for configurations of 3 lambdas
-          Ctxs       \* subset of {"mod", "fun"}: statement at module level / inside a function
+          Ctxs,      \* subset of {"mod", "fun"}: statement at module level / inside a function
+          WSigs,     \* parameter lists of the functions that functools.wraps copies onto a lambda object
+          SigsW,     \* parameter lists of the lambdas in configurations that contain a wrapped lambda
+          MaxWrap,   \* max number of wrapped lambdas in a configuration
+          MaxLW      \* max number of lambdas in a configuration that contains a wrapped lambda
 
-VARIABLES phase, cx, n, par, brk, span, sig, sep,
+VARIABLES phase, cx, n, par, brk, span, sig, sep, wr,
           text, fl, ll      \* set by Finish: the rendered text, first and last physical line of every lambda
-vars == <<phase, cx, n, par, brk, span, sig, sep, text, fl, ll>>
+vars == <<phase, cx, n, par, brk, span, sig, sep, wr, text, fl, ll>>
 
 SigText(s) == CASE s = "none" -> "" [] s = "x" -> " x" [] s = "y" -> " y" [] s = "xy" -> " x, y"
                 [] s = "xd" -> " x=5" [] s = "va" -> " *a" [] s = "kw" -> " **k" [] s = "po" -> " x, /"
@@ -48,7 +60,7 @@ NameKey(s) == CASE s = "none" -> "|||" [] s = "x" -> "x|||" [] s = "y" -> "y|||"
                 [] s = "ko" -> "|||x" [] s = "xz" -> "x,z|||"
 
 Init == /\ phase = "build" /\ cx \in Ctxs /\ n = 0
-        /\ par = <<>> /\ brk = <<>> /\ span = <<>> /\ sig = <<>> /\ sep = <<>>
+        /\ par = <<>> /\ brk = <<>> /\ span = <<>> /\ sig = <<>> /\ sep = <<>> /\ wr = <<>>
         /\ text = "" /\ fl = <<>> /\ ll = <<>>
 
 RECURSIVE IsAncOrSelf(_, _)
@@ -58,11 +70,18 @@ Parents == IF n = 0 THEN {0} ELSE {0} \cup {a \in 1 .. n : IsAncOrSelf(a, n)}
 
 (* sep[k] = "semi": the k-th lambda opens a NEW STATEMENT on the same physical line (`...); T2 = (...`):      *)
 (* several simple statements separated by semicolons share a line, each with its own lambdas               *)
-Add(p, b, sp, sg, se) ==
+(* w # "no": the object created by this lambda goes through functools.wraps(W_w)                          *)
+NWrapped == Cardinality({k \in 1 .. n : wr[k] # "no"})
+Add(p, b, sp, sg, se, w) ==
   /\ phase = "build" /\ n < MaxL /\ p \in Parents
   /\ (se = "semi" => p = 0 /\ n >= 1)
   /\ sg \in (IF n + 1 >= 3 THEN Sigs3 ELSE Sigs)
   /\ (n + 1 >= 3 => \A k \in 1 .. n : sig[k] \in Sigs3)
+  /\ w \in {"no"} \cup WSigs
+  /\ NWrapped + (IF w = "no" THEN 0 ELSE 1) <= MaxWrap
+  /\ (w # "no" \/ NWrapped > 0) => /\ n + 1 <= MaxLW
+                                   /\ sg \in SigsW /\ \A k \in 1 .. n : sig[k] \in SigsW
+  /\ wr' = Append(wr, w)
   /\ n' = n + 1 /\ par' = Append(par, p) /\ brk' = Append(brk, b) /\ span' = Append(span, sp) /\ sig' = Append(sig, sg)
   /\ sep' = Append(sep, se)
   /\ UNCHANGED <<phase, cx, text, fl, ll>>
@@ -78,7 +97,8 @@ Render(k) ==
       body == IF ch = <<>> THEN <<Tok(const, 0, 0, 0)>>
               ELSE <<Tok("(" \o const \o ", ", 0, 0, 0)>> \o RenderAll(ch) \o <<Tok(")", 0, 0, 0)>>
   IN (IF brk[k] = "nl" THEN <<NL>> ELSE <<>>)
-     \o <<Tok("(lambda" \o SigText(sig[k]) \o ":", 0, k, 0)>>
+     \o <<Tok((IF wr[k] = "no" THEN "(" ELSE "functools.wraps(W_" \o wr[k] \o ")(")
+              \o "lambda" \o SigText(sig[k]) \o ":", 0, k, 0)>>
      \o (IF span[k] = "two" THEN <<NL>> ELSE <<Tok(" ", 0, 0, 0)>>)
      \o body \o <<Tok(")", 0, 0, k)>>
 (* statement number of a top-level lambda; the statements are  TGT1 = (...); TGT2 = (...)  on one logical line each *)
@@ -106,22 +126,29 @@ Finish == /\ phase = "build" /\ n >= 1 /\ phase' = "done"
              IN /\ text' = Cat(ts)
                 /\ fl' = [k \in 1 .. n |-> 1 + NlBefore(ts, PosOpen(ts, k))]   \* line of the `lambda` keyword = co_firstlineno
                 /\ ll' = [k \in 1 .. n |-> 1 + NlBefore(ts, PosClose(ts, k))]
-          /\ UNCHANGED <<cx, n, par, brk, span, sig, sep>>
+          /\ UNCHANGED <<cx, n, par, brk, span, sig, sep, wr>>
 FirstLine(k) == fl[k]
 LastLine(k)  == ll[k]
 
 Next == \/ \E p \in 0 .. MaxL, b \in {"same", "nl"}, sp \in {"one", "two"}, sg \in Sigs \cup Sigs3,
-             se \in {"comma", "semi"} : Add(p, b, sp, sg, se)
+             se \in {"comma", "semi"}, w \in {"no"} \cup WSigs : Add(p, b, sp, sg, se, w)
         \/ Finish
 Spec == Init /\ [][Next]_vars
 
 
 (* ---- expected result ------------------------------------------------------ *)
 (* what cannot be excluded knowing only the first line of the object's code *)
+(* the object's own parameter names (its code object) and the names that introspection following          *)
+(* __wrapped__ (inspect.signature) reports for it: functools.wraps changes the second, never the first   *)
+Own(i)   == NameKey(sig[i])
+Shown(i) == IF wr[i] = "no" THEN NameKey(sig[i]) ELSE NameKey(wr[i])
 Cand(i)  == {j \in 1 .. n : FirstLine(j) <= FirstLine(i) /\ FirstLine(i) <= LastLine(j)}
-SameNames(i) == {j \in Cand(i) : NameKey(sig[j]) = NameKey(sig[i])}
+SameNames(i) == {j \in Cand(i) : Own(j) = Own(i)}
 Resolvable(i) == Cand(i) = {i} \/ SameNames(i) = {i}
 Twin(i) == \E j \in Cand(i) : j # i /\ sig[j] = sig[i]      \* indistinguishable by line and full signature
+(* a rival carries the parameter names of the function this object wraps, and they are not its own: the    *)
+(* situation in which reading the wrapped function's signature picks the rival                             *)
+Decoy(i) == Shown(i) # Own(i) /\ \E j \in Cand(i) : j # i /\ Own(j) = Shown(i)
 Expected(i) == IF Resolvable(i) THEN "found" ELSE "found-or-unsupported"
 (* how the configuration is classified for reporting: relation of lambda i to its nearest rival *)
 Rel(i, j) == IF IsAncOrSelf(j, i) THEN "inside"             \* i is nested in j
@@ -136,11 +163,15 @@ ResolvableUnique == Done => \A i \in 1 .. n : Resolvable(i) => ~Twin(i)
 Nesting == Done => \A i \in 1 .. n : par[i] # 0 =>
               FirstLine(par[i]) <= FirstLine(i) /\ LastLine(i) <= LastLine(par[i])
 Statements == Done => \A i \in 1 .. n : sep[i] = "semi" => par[i] = 0 /\ i > 1
+Wrapping == Done => /\ NWrapped <= MaxWrap
+                    /\ NWrapped > 0 => n <= MaxLW /\ \A i \in 1 .. n : sig[i] \in SigsW
+                    /\ \A i \in 1 .. n : wr[i] = "no" => Shown(i) = Own(i) /\ ~Decoy(i)
 PreOrder == Done => \A i \in 1 .. n - 1 : FirstLine(i) <= FirstLine(i + 1)
 
 Emit == Done =>
   PrintT(ToJson([cx |-> cx, n |-> n, par |-> par, brk |-> brk, span |-> span, sig |-> sig,
-                 sep |-> sep, stmt |-> [i \in 1 .. n |-> StmtOf(Root(i))], nst |-> 1 + NSemi(n),
+                 sep |-> sep, wr |-> wr, own |-> [i \in 1 .. n |-> Own(i)], shown |-> [i \in 1 .. n |-> Shown(i)],
+                 decoy |-> [i \in 1 .. n |-> Decoy(i)], stmt |-> [i \in 1 .. n |-> StmtOf(Root(i))], nst |-> 1 + NSemi(n),
                  text |-> text,
                  first |-> [i \in 1 .. n |-> FirstLine(i)], last |-> [i \in 1 .. n |-> LastLine(i)],
                  exp |-> [i \in 1 .. n |-> Expected(i)],
